@@ -558,7 +558,13 @@ func genC20(g *Gen, tier string) *Program {
 		if g.Bool(40) {
 			ops = append(ops, Op{K: "sub", S: 0, D: 1, Name: pick(g, "a", "b")})
 		}
-		for i := g.Range(1, 3); i > 0; i-- {
+		// a caller that builds every bucket set in one scratch slice of its own
+		reuse := g.Bool(35)
+		nh := g.Range(1, 3)
+		if reuse {
+			nh = g.Range(2, 4)
+		}
+		for i := nh; i > 0; i-- {
 			si := g.Intn(len(fam))
 			spec := fam[si]
 			hn++
@@ -568,6 +574,8 @@ func genC20(g *Gen, tier string) *Program {
 			}
 			if shared && si == 0 {
 				op.N = 1 // use the shared caller slice
+			} else if reuse {
+				op.N = -1 // written into the task's scratch slice
 			}
 			ops = append(ops, op)
 			// one sample on every bound and one between
@@ -582,6 +590,9 @@ func genC20(g *Gen, tier string) *Program {
 			}
 			if g.Bool(40) {
 				ops = append(ops, Op{K: "pairs", B: spec, N: op.N})
+			}
+			if g.Bool(25) {
+				ops = append(ops, genCtorOp(g))
 			}
 			nextM++
 		}
@@ -604,6 +615,9 @@ func checkC20(env *Env) []Violation {
 		if r.Err != "" && (r.Op.K == "hist" || r.Op.K == "pairs") {
 			out = append(out, vf("caller-slice-modified", "%s: %s", r.Op.String(), r.Err))
 		}
+		if x, _ := r.Extra.(string); r.Op.K == "hist" && x == "caller-slice-reused" {
+			env.Probes.inc("caller_slice_reused")
+		}
 		if r.Op.K == "hist" && r.Op.B != nil {
 			seenSpecs[fmt.Sprint(r.Op.B.Bits, r.Op.B.Durs)] = true
 		}
@@ -611,6 +625,7 @@ func checkC20(env *Env) []Violation {
 	if len(seenSpecs) > 1 {
 		env.Probes.inc("colliding_specs")
 	}
+	out = append(out, checkCtors(env, ops)...)
 	return out
 }
 
